@@ -4,6 +4,7 @@ mod gen;
 mod obs;
 mod ops;
 mod schema_ops;
+mod script;
 
 use gen::Gen;
 use ops::Budget;
@@ -51,6 +52,9 @@ fn main() {
                 }
             }
         }
+    }
+    if prop == "C11" {
+        script::c11_large(&mut g, &mut out, thorough);
     }
     if prop == "C02" {
         ops::c02_too_long(&mut out);
